@@ -196,6 +196,11 @@ def run(ctx):
                     dur = -dur          # years below 1000 are outside the domain (no four-digit year)
                 if dur < 0:
                     ctx.event('validity-ends-before-it-starts')
+                if rng.random() < 0.12:
+                    # "valid from now on": the requested start is the current time (whole second; the validity text has no finer unit)
+                    start = datetime.datetime.now(UTC).replace(tzinfo=None, microsecond=0) + datetime.timedelta(seconds=rng.choice([0, 0, 1, -1]))
+                    dur = abs(dur) if dur else 3600
+                    ctx.event('validity-starting-now')
                 if rng.random() < 0.25:
                     # instants between two seconds and lifetimes with a fractional part (what (deadline - now).total_seconds() gives):
                     # binary fractions, so the requested end is exact; the text form names the second it falls in
@@ -273,5 +278,6 @@ def run(ctx):
     ctx.need_event('signer-reused-with-new-locator')
     ctx.need_event('key-locator-wire-form-32-octets')
     ctx.need_event('validity-with-fractional-seconds')
+    ctx.need_event('validity-starting-now')
     ctx.assumptions = ['self_sign/sign_req read the real clock (datetime.now is not patchable): their instants are checked within 5 s',
                        'years < 1000 are outside the generated domain (no four-digit year)']
